@@ -1072,10 +1072,11 @@ impl TypeChecker {
                 ));
 
                 // Unify the fields with their real types
-                let ret = Some(self.push_type(Type::Unknown));
+                // Only what the parts return - a literal returns nothing by itself.
+                let mut ret = None;
                 for (key, expr) in fields {
                     let (inner_ret, expr_ty) = self.expression(expr, ctx)?;
-                    self.unify_option(*span, ctx, ret, inner_ret)?;
+                    ret = self.unify_option(*span, ctx, ret, inner_ret)?;
                     self.unify(expr.span(), ctx, expr_ty, fields_and_types[key].1)?;
                 }
 
@@ -1084,22 +1085,24 @@ impl TypeChecker {
 
             E::Collection { collection: Collection::Tuple, values, span } => {
                 let mut tys = Vec::new();
-                let ret = Some(self.push_type(Type::Unknown));
+                // Only what the parts return - a literal returns nothing by itself.
+                let mut ret = None;
                 for expr in values.iter() {
                     let (inner_ret, ty) = self.expression(expr, ctx)?;
                     tys.push(ty);
-                    self.unify_option(*span, ctx, ret, inner_ret)?;
+                    ret = self.unify_option(*span, ctx, ret, inner_ret)?;
                 }
                 with_ret(ret, self.push_type(Type::Tuple(tys)))
             }
 
             E::Collection { collection: Collection::List, values, span } => {
                 let inner_ty = self.push_type(Type::Unknown);
-                let ret = Some(self.push_type(Type::Unknown));
+                // Only what the parts return - a literal returns nothing by itself.
+                let mut ret = None;
                 for expr in values.iter() {
                     let (e_ret, e) = self.expression(expr, ctx)?;
                     self.unify(*span, ctx, inner_ty, e)?;
-                    self.unify_option(*span, ctx, ret, e_ret)?;
+                    ret = self.unify_option(*span, ctx, ret, e_ret)?;
                 }
                 with_ret(ret, self.push_type(Type::List(inner_ty)))
             }
